@@ -578,6 +578,9 @@ def rule_r7(repo, run):
     from checks import c12
     from sa.report import import_rules
     import_rules(run, R, c12, repo, {"C12.R4"}, only=lambda c: c == "reader.store")
+    # a tab or a leading / trailing directive character in the *user's* code is text, not layout: every way user code
+    # enters the output goes through the filter that turns tabs into blanks and marks the line literal (C12.R6)
+    import_rules(run, R, c12, repo, {"C12.R6"}, only=lambda c: "user-code" in c or "write_lines:default" in c or c.endswith(":verbatim"))
     # the line lengths are options: a length given on the command line is the one that is used (C14.R5)
     from checks import c14
     import_rules(run, R, c14, repo, {"C14.R5"}, only=lambda c: c.endswith(":command-line-wins") or c.endswith(":int-options"))
